@@ -31,6 +31,7 @@ def check_predict(chk, rep, repo, cls, fields):
     require_scalar_fragment(w, w.entry.qual)
     from ..rules_knn import unclamp_k
     w = unclamp_k(w, G)
+    w = _positive_constant_view(w, G)
     scans = find_knn_scans(w)
     if not scans:
         from ..rules_knn import report_missing_scan
@@ -175,6 +176,31 @@ def check_predict(chk, rep, repo, cls, fields):
            f"returns '{show(rets[0].value)[:140] if rets else '?'}'")
     run_kinds(rep, w)
     return 1
+
+
+def _positive_constant_view(w, G):
+    """`constant if constant > 0 else <fallback>` is the stored constant: calculate_pdf stores 2 * density / 9 and
+    create_arcs never leaves the density bound below 1e-5 (rules PDF-constant and ARCS-fallback of C12), so the stored
+    constant of a fitted model is positive and the fallback arm is never taken."""
+    from ..ir import substitute_view, subterms
+    k = ("attr", G, "constant")
+    zeros = (("const", 0), ("const", 0.0))
+    mapping = {}
+    for ev in w.events:
+        for top in [x for x in (ev.target, ev.value) if x is not None] + list(ev.args or ()) + [g for g, _ in ev.guards]:
+            for t in subterms(top):
+                if t[0] == "sel" and t[1][0] == "cmp" and t[1][1] in ("<", "<="):
+                    c = t[1]
+                    if c[2] == k and c[3] in zeros and t[3] == k:      # constant <= 0 ? fallback : constant
+                        mapping[t] = k
+                    elif c[3] == k and c[2] in zeros and t[2] == k and c[1] == "<":  # 0 < constant ? constant : fallback
+                        mapping[t] = k
+    for li in w.loops.values():
+        for n, (a, b) in li.carried.items():
+            for t in list(subterms(a)) + list(subterms(b)):
+                if t[0] == "sel" and t[1][0] == "cmp" and t[1][1] in ("<", "<=") and t[1][2] == k and t[1][3] in zeros and t[3] == k:
+                    mapping[t] = k
+    return substitute_view(w, mapping) if mapping else w
 
 
 def _subs(t):
